@@ -301,3 +301,142 @@ pub fn replay(case: &serde_json::Value, key_prefix: &str) -> Option<Vec<Finding>
     let hist: Vec<IOp> = serde_json::from_value(c["hist"].clone()).ok()?;
     Some(differential(kind, &hist).into_iter().map(|(k, d)| Finding::new(format!("{key_prefix}/kind={k}"), d, case.clone())).collect())
 }
+
+// ------------------------------------------------------------------------------------------
+// the same differential one level up: ONE long-lived WebAuthn Client against fresh Clients
+
+#[derive(Clone, Copy, Debug, PartialEq, Eq, Hash, Serialize, Deserialize)]
+pub enum COp {
+    /// Client::register; origin 0 = https://example.com, 1 = https://login.example.com with rp id example.com
+    Register { rk: bool, cred_props: bool, origin: u8 },
+    /// Client::authenticate; who: 0 seeded A, 2 no allow list, 3 unknown id, 4 first created
+    Authenticate { who: u8, origin: u8, prf: bool },
+    /// a request the client refuses before it reaches the authenticator (RP id not valid for the origin)
+    BadRpId,
+}
+
+fn client_one<S>(client: &mut passkey_client::Client<S, ScriptedUv, public_suffix::PublicSuffixList>, op: COp, step: usize, created: &mut Vec<Vec<u8>>) -> String
+where
+    S: CredentialStore<PasskeyItem = Passkey> + Send + Sync,
+{
+    use passkey_types::webauthn;
+    let origin_of = |o: u8| url::Url::parse(if o == 0 { "https://example.com" } else { "https://login.example.com" }).unwrap();
+    let rp_of = |o: u8| (o != 0).then(|| RP.to_string());
+    match op {
+        COp::Register { rk, cred_props, origin } => {
+            let sel = Some(webauthn::AuthenticatorSelectionCriteria { authenticator_attachment: None, resident_key: None, require_resident_key: rk, user_verification: Default::default() });
+            let ext = cred_props.then(|| webauthn::AuthenticationExtensionsClientInputs { cred_props: Some(true), prf: None, prf_already_hashed: None });
+            let opts = creation_options(Reg { rp_id: rp_of(origin), user_id: vec![0x50, step as u8], selection: sel, extensions: ext, ..Default::default() });
+            match poll_n(client.register(&origin_of(origin), opts, passkey_client::DefaultClientData), None) {
+                Polled::Done { value: Ok(c), .. } => {
+                    created.push(c.raw_id.to_vec());
+                    let ad = c.response.authenticator_data.to_vec();
+                    format!("ok flags={:02x} counter={:?} credProps={:?} adlen>37={}", ad.get(32).copied().unwrap_or(0), ad.get(33..37), c.client_extension_results.cred_props.as_ref().map(|p| p.discoverable), ad.len() > 37)
+                }
+                Polled::Done { value: Err(e), .. } => format!("err:{e:?}"),
+                _ => "STUCK".into(),
+            }
+        }
+        COp::Authenticate { who, origin, prf: p } => {
+            let allow = match who {
+                0 => Some(vec![cred_id(1)]),
+                2 => None,
+                3 => Some(vec![vec![0xEE; 16]]),
+                _ => Some(vec![created.first().cloned().unwrap_or(vec![0xEF; 16])]),
+            };
+            let ext = p.then(|| webauthn::AuthenticationExtensionsClientInputs { cred_props: None, prf: Some(webauthn::AuthenticationExtensionsPrfInputs { eval: Some(webauthn::AuthenticationExtensionsPrfValues { first: vec![1, 2, 3].into(), second: None }), eval_by_credential: None }), prf_already_hashed: None });
+            let opts = request_options(Auth { rp_id: rp_of(origin), allow, extensions: ext, ..Default::default() });
+            match poll_n(client.authenticate(&origin_of(origin), opts, passkey_client::DefaultClientData), None) {
+                Polled::Done { value: Ok(c), .. } => {
+                    let id = c.raw_id.to_vec();
+                    let ad = c.response.authenticator_data.to_vec();
+                    let who = created.iter().position(|x| *x == id).map_or_else(|| hex(&id[..id.len().min(4)]), |i| format!("created#{i}"));
+                    let prf_out = c.client_extension_results.prf.as_ref().map(|o| o.results.is_some());
+                    format!("ok cred={who} flags={:02x} counter={:?} userHandle={:?} prf={prf_out:?}", ad.get(32).copied().unwrap_or(0), ad.get(33..37), c.response.user_handle.as_ref().map(|h| h.to_vec()))
+                }
+                Polled::Done { value: Err(e), .. } => format!("err:{e:?}"),
+                _ => "STUCK".into(),
+            }
+        }
+        COp::BadRpId => {
+            let opts = request_options(Auth { rp_id: Some("evil.org".into()), allow: None, ..Default::default() });
+            match poll_n(client.authenticate(&origin_of(0), opts, passkey_client::DefaultClientData), None) {
+                Polled::Done { value: Ok(_), .. } => "ok(!)".into(),
+                Polled::Done { value: Err(e), .. } => format!("err:{e:?}"),
+                _ => "STUCK".into(),
+            }
+        }
+    }
+}
+
+fn client_run<S>(store: S, recs: &dyn Fn() -> Vec<Rec>, hist: &[COp], one_instance: bool) -> (Vec<String>, Snap)
+where
+    S: CredentialStore<PasskeyItem = Passkey> + Send + Sync + Clone,
+{
+    let mut created = vec![];
+    let mut out = vec![];
+    let mut long_lived = passkey_client::Client::new(mk(store.clone(), false));
+    for (k, op) in hist.iter().enumerate() {
+        let r = if one_instance { client_one(&mut long_lived, *op, k, &mut created) } else { client_one(&mut passkey_client::Client::new(mk(store.clone(), false)), *op, k, &mut created) };
+        out.push(r);
+    }
+    (out, snap(recs(), &created))
+}
+fn client_run_kind(kind: u8, hist: &[COp], one_instance: bool) -> (Vec<String>, Snap) {
+    match kind {
+        1 => {
+            let m: MemoryStore = seeds().into_iter().map(|p| (p.credential_id.to_vec(), p)).collect();
+            let s = Arc::new(tokio::sync::Mutex::new(m));
+            client_run(s.clone(), &|| s.recs(), hist, one_instance)
+        }
+        _ => {
+            let mut rs = RefStore::with(seeds());
+            rs.newest_first = false;
+            let s = Shared::new(rs);
+            client_run(s.clone(), &|| s.recs(), hist, one_instance)
+        }
+    }
+}
+pub fn client_differential(kind: u8, hist: &[COp]) -> Vec<(String, String)> {
+    let a = match par::catch(|| client_run_kind(kind, hist, true)) {
+        Ok(a) => a,
+        Err(p) => return vec![(format!("panic-on-one-client/site={}", par::panic_site(&p)), p)],
+    };
+    let Ok(b) = par::catch(|| client_run_kind(kind, hist, false)) else { return vec![] };
+    let mut v = vec![];
+    for (k, (x, y)) in a.0.iter().zip(b.0.iter()).enumerate() {
+        if x != y {
+            v.push(("client-state-changes-result".into(), format!("operation #{k} ({:?}) of {hist:?} on {}: one long-lived Client answers {x}, a fresh Client over the same store answers {y}", hist[k], STORES[kind as usize % 3])));
+            break;
+        }
+    }
+    if v.is_empty() && a.1 != b.1 {
+        v.push(("client-state-changes-store".into(), format!("after {hist:?} on {}: store {:?} with one long-lived Client, {:?} with fresh ones", STORES[kind as usize % 3], a.1, b.1)));
+    }
+    v
+}
+pub fn client_sweep(alphabet: &[COp], depth: usize, kinds: &[u8], threads: usize, key_prefix: &str) -> Stats {
+    let n = alphabet.len();
+    let mut hists: Vec<(u8, Vec<COp>)> = vec![];
+    for &kind in kinds {
+        for d in 2..=depth {
+            for idx in 0..n.pow(d as u32) {
+                let mut x = idx;
+                hists.push((kind, (0..d).map(|_| { let o = alphabet[x % n]; x /= n; o }).collect()));
+            }
+        }
+    }
+    let prefix = key_prefix.to_string();
+    par::sweep_cases(&hists, threads, |(kind, h), st| {
+        st.case(&(kind, h), true, "client-instance-differential");
+        for (k, d) in client_differential(*kind, h) {
+            st.finding(Finding::new(format!("{prefix}/kind={k}"), d, json!({"client_instance_differential": {"store": kind, "hist": h}})));
+        }
+    })
+}
+pub fn client_replay(case: &serde_json::Value, key_prefix: &str) -> Option<Vec<Finding>> {
+    let c = case.get("client_instance_differential")?;
+    let kind = c["store"].as_u64().unwrap_or(0) as u8;
+    let hist: Vec<COp> = serde_json::from_value(c["hist"].clone()).ok()?;
+    Some(client_differential(kind, &hist).into_iter().map(|(k, d)| Finding::new(format!("{key_prefix}/kind={k}"), d, case.clone())).collect())
+}
